@@ -25,8 +25,21 @@ import (
 type dispOp = opIn
 
 type dispIn struct {
-	Limiter string   `json:"limiter"` // inf | zero-burst (Wait always fails)
-	Script  []string `json:"script"`  // provider outcome per call, cycled (as in the async stream)
+	Limiter string   `json:"limiter"`         // inf | zero-burst (Wait always fails) | burst
+	Burst   int      `json:"burst,omitempty"` // bucket size for limiter "burst" (rate 1e6/s: Wait returns within microseconds)
+	Script  []string `json:"script"`          // provider outcome per call, cycled (as in the async stream)
+}
+
+// mkLimiter builds the rate limiter of a case and returns the bucket size the model is told
+// (a limiter with rate Inf never refuses for size: 1).
+func mkLimiter(kind string, burst int) (*rate.Limiter, int64) {
+	switch kind {
+	case "zero-burst":
+		return rate.NewLimiter(1, 0), 0
+	case "burst":
+		return rate.NewLimiter(rate.Limit(1e6), burst), int64(burst)
+	}
+	return rate.NewLimiter(rate.Inf, 1), 1
 }
 
 type dispReply struct {
@@ -90,19 +103,16 @@ type dispExec struct {
 	trace    []string
 	monitors []string
 	// rough mirror, only to generate sensible scripts
-	batch, owed, ncalls, nTimerFlush, nFullFlush, nAfterCancel int
-	stopped, cancelled, idle                                    bool
-	done2                                                       []dispOp
+	batch, owed, ncalls, nTimerFlush, nFullFlush, nAfterCancel, maxBatch int
+	stopped, cancelled, idle                                             bool
+	done2                                                                []dispOp
 }
 
 func newDispExec(in input) *dispExec {
 	ctx, cancel := context.WithCancel(context.Background())
 	x := &dispExec{in: in, cancel: cancel, ipCh: make(chan gostatsd.Source), infoCh: make(chan gostatsd.InstanceInfo), done: make(chan string, 1)}
 	x.prov = &dispProvider{limit: in.Cfg.Limit, callCh: make(chan []gostatsd.Source), replyCh: make(chan dispReply)}
-	limiter := rate.NewLimiter(rate.Inf, 1)
-	if in.Disp.Limiter == "zero-burst" {
-		limiter = rate.NewLimiter(1, 0)
-	}
+	limiter, _ := mkLimiter(in.Disp.Limiter, in.Disp.Burst)
 	go func() {
 		defer func() {
 			if r := recover(); r != nil {
@@ -150,6 +160,9 @@ func (x *dispExec) event(send *gostatsd.Source) bool {
 			x.nTimerFlush++
 		}
 		x.batch, x.owed = 0, len(ips)
+		if len(ips) > x.maxBatch {
+			x.maxBatch = len(ips)
+		}
 		x.prov.replyCh <- reply
 	case info := <-x.infoCh:
 		x.owed--
@@ -169,7 +182,9 @@ func (x *dispExec) event(send *gostatsd.Source) bool {
 }
 
 // quiescent: the mirror says the loop has nothing to do (so a "step" would only wait for the idle timeout)
-func (x *dispExec) quiescent() bool { return x.stopped || (x.batch == 0 && x.owed <= 0 && !x.cancelled) }
+func (x *dispExec) quiescent() bool {
+	return x.stopped || (x.batch == 0 && x.owed <= 0 && !x.cancelled)
+}
 
 func (x *dispExec) exec(op dispOp) {
 	if x.stopped {
@@ -216,7 +231,8 @@ func (x *dispExec) finish() hlib.Case {
 	in := x.in
 	in.Kind = "disp"
 	c := hlib.Case{Input: in, Monitors: x.monitors}
-	c.Coq = hlib.App("DispCase", hlib.Z(int64(in.Cfg.Limit)), hlib.Bool(in.Disp.Limiter == "zero-burst"), hlib.List(x.events))
+	_, modelBurst := mkLimiter(in.Disp.Limiter, in.Disp.Burst)
+	c.Coq = hlib.App("DispCase", hlib.Z(int64(in.Cfg.Limit)), hlib.Z(modelBurst), hlib.List(x.events))
 	tr := x.trace
 	if len(tr) > 60 {
 		tr = tr[len(tr)-60:]
@@ -232,7 +248,14 @@ func (x *dispExec) finish() hlib.Case {
 	if x.nAfterCancel > 1 {
 		flags += "+cancel-midway"
 	}
-	c.Class = fmt.Sprintf("disp/limit=%d/%s%s", in.Cfg.Limit, in.Disp.Limiter, flags)
+	if in.Disp.Limiter == "burst" && x.maxBatch > in.Disp.Burst {
+		flags += "+batch>burst"
+	}
+	lim := in.Disp.Limiter
+	if lim == "burst" {
+		lim = fmt.Sprintf("burst=%d", in.Disp.Burst)
+	}
+	c.Class = fmt.Sprintf("disp/limit=%d/%s%s", in.Cfg.Limit, lim, flags)
 	c.Nontrivial = x.ncalls >= 2 && x.nTimerFlush > 0 && x.nFullFlush > 0
 	return c
 }
@@ -249,22 +272,30 @@ func runDisp(in input) hlib.Case {
 }
 
 func genDisp(r *hlib.Rand) hlib.Case {
-	limit := r.Range(1, 4)
+	limit := hlib.Pick(r, []int{1, 2, 2, 3, 3, 4, 4, 5, 8, 16, 20, 32, 40})
 	if r.Chance(1, 25) {
 		limit = hlib.Pick(r, []int{0, -1})
 	}
-	limiter := "inf"
-	if r.Chance(1, 12) {
+	// the limiter: rate Inf, or a finite (fast) rate with a bucket of 1, 2 or 15 tokens -- smaller than a
+	// full batch as often as not --, or a bucket that can never grant
+	limiter, lburst := "inf", 0
+	switch k := r.Intn(12); {
+	case k == 0:
 		limiter = "zero-burst"
+	case k < 9:
+		limiter, lburst = "burst", hlib.Pick(r, []int{1, 1, 2, 2, 15})
 	}
 	modes := []string{"full", "partial", "empty", "nilmap", "efull", "epartial", "eempty", "enil"}
 	script := make([]string, r.Range(1, 4))
 	for i := range script {
 		script[i] = hlib.Pick(r, modes)
 	}
-	in := input{Kind: "disp", Cfg: cfgIn{Limit: limit}, Disp: &dispIn{Limiter: limiter, Script: script}}
+	in := input{Kind: "disp", Cfg: cfgIn{Limit: limit}, Disp: &dispIn{Limiter: limiter, Burst: lburst, Script: script}}
 	x := newDispExec(in)
 	nops := r.Range(4, 22)
+	if limit > 5 {
+		nops += limit
+	}
 	cancelAt := -1
 	if r.Chance(1, 2) {
 		cancelAt = r.Intn(nops)
@@ -278,6 +309,9 @@ func genDisp(r *hlib.Rand) hlib.Case {
 		case burst > 0 || x.quiescent() || r.Chance(2, 5):
 			if burst == 0 && r.Chance(1, 2) {
 				burst = r.Range(1, 5) // several sources in quick succession: more than the limit as often as not
+				if limit > 3 && r.Chance(2, 3) {
+					burst = limit + r.Intn(3) // a full batch
+				}
 			}
 			if burst > 0 {
 				burst--
